@@ -264,7 +264,7 @@ class Inliner:
             return self.cache[key]
         if key in self.active or len(self.active) >= MAX_DEPTH:
             return f.raw
-        from .normalize import merge_twin_locals, split_parallel_assign, scalar_replace, desugar_tables, matchify, might_apply, might_dispatch, might_matchify, might_unroll, normalize_formats, unroll_literal_loops
+        from .normalize import propagate_copies, merge_twin_locals, split_parallel_assign, scalar_replace, desugar_tables, matchify, might_apply, might_dispatch, might_matchify, might_unroll, normalize_formats, unroll_literal_loops
 
         cand = self._has_candidate(f.raw)
         fmt = might_apply(f.raw) or might_dispatch(f.raw, f.module.top) or might_unroll(f.raw, f.module.top) or might_matchify(f.raw) or cand
@@ -290,6 +290,8 @@ class Inliner:
             out = node if changed else f.raw
             if changed:
                 ast.fix_missing_locations(out)
+            if changed and expanded:
+                propagate_copies(node)  # `v1 = frame1__direction` left behind by scalar replacement / expansion
             if changed and expanded:
                 # expanded statements carry the line numbers of the helper they came from; several rules order
                 # statements by line.  Keep the real line for reports (`_srcline`) and make `lineno` follow document order.
@@ -331,6 +333,36 @@ class Inliner:
                     # only helpers defined in the package count (not e.g. np._something)
                     if any(nm == k.rpartition(".")[2] or k.endswith(":" + nm) for k in self._package_private()):
                         out.append(nm)
+        return out
+
+    def _local_instances(self, root, f):
+        """{local: ClassInfo} for locals of `root` bound exactly once, to `_PrivateClass(...)` of the same module"""
+        cache = getattr(self, "_li_cache", None)
+        if cache is None:
+            cache = self._li_cache = {}
+        got = cache.get(id(root))
+        if got is not None:
+            return got
+        binds: dict[str, list] = {}
+        for n in ast.walk(root):
+            if isinstance(n, ast.Assign):
+                for t in n.targets:
+                    for x in ast.walk(t):
+                        if isinstance(x, ast.Name):
+                            binds.setdefault(x.id, []).append(n.value if t is x else None)
+            elif isinstance(n, ast.arg):
+                binds.setdefault(n.arg, []).append(None)
+            elif isinstance(n, (ast.For, ast.comprehension)):
+                for x in ast.walk(n.target):
+                    if isinstance(x, ast.Name):
+                        binds.setdefault(x.id, []).append(None)
+        out = {}
+        for nm, vs in binds.items():
+            if len(vs) == 1 and isinstance(vs[0], ast.Call) and isinstance(vs[0].func, ast.Name) and _is_private(vs[0].func.id):
+                ci = f.module.classes.get(vs[0].func.id)
+                if ci is not None:
+                    out[nm] = ci
+        cache[id(root)] = out
         return out
 
     def _package_private(self):
@@ -442,7 +474,7 @@ class Inliner:
         """If `s` contains an inlinable call in unconditional position, return the replacement statements."""
         heads = []
         if isinstance(s, ast.With) and len(s.items) == 1 and isinstance(s.items[0].context_expr, ast.Call):
-            r = self._resolve(s.items[0].context_expr, f, ctxmgr=True)
+            r = self._resolve(s.items[0].context_expr, f, ctxmgr=True, root=root)
             if r is not None:
                 try:
                     return self._expand_with(s, r[0], r[1], f, root)
@@ -450,7 +482,7 @@ class Inliner:
                     self.log.append(f"{f.key}: {r[0].key} (context manager) not inlined: {e}")
         if isinstance(s, ast.For) and not s.orelse and isinstance(s.iter, ast.Call):
             # `for T in helper(args): BODY` with helper a private generator: its statements, each `yield v` replaced by `T = v; BODY`
-            r = self._resolve(s.iter, f, generator=True)
+            r = self._resolve(s.iter, f, generator=True, root=root)
             if r is not None:
                 try:
                     return self._expand_for(s, r[0], r[1], root)
@@ -460,7 +492,7 @@ class Inliner:
                 and len(s.value.args) == 1 and not s.value.keywords and isinstance(s.value.args[0], ast.Call):
             # `x = list(helper(args))`: x = [] and the generator's statements with `yield v` replaced by `x.append(v)`
             tgt = s.targets[0] if isinstance(s, ast.Assign) and len(s.targets) == 1 else getattr(s, "target", None)
-            r = self._resolve(s.value.args[0], f, generator=True)
+            r = self._resolve(s.value.args[0], f, generator=True, root=root)
             if r is not None and isinstance(tgt, (ast.Name, ast.Attribute)):
                 try:
                     return self._expand_collect(s, tgt, r[0], r[1], root)
@@ -468,7 +500,7 @@ class Inliner:
                     self.log.append(f"{f.key}: {r[0].key} (generator in list()) not inlined: {e}")
         if isinstance(s, ast.Expr) and isinstance(s.value, ast.YieldFrom) and isinstance(s.value.value, ast.Call):
             # `yield from helper(args)`: the generator helper's statements, yields and all
-            r = self._resolve(s.value.value, f, generator=True)
+            r = self._resolve(s.value.value, f, generator=True, root=root)
             if r is not None:
                 try:
                     pre, body = self._bind(s.value.value, r[0], r[1], root, set())
@@ -486,7 +518,7 @@ class Inliner:
             heads.append(("subject", s.subject))
         for fld, expr in heads:
             for call in self._unconditional_calls(expr):
-                r = self._resolve(call, f)
+                r = self._resolve(call, f, root=root)
                 if r is None:
                     continue
                 callee, recv = r
@@ -538,7 +570,7 @@ class Inliner:
             self._unique_methods = d
         return self._unique_methods
 
-    def _resolve(self, call: ast.Call, f, ctxmgr: bool = False, generator: bool = False):
+    def _resolve(self, call: ast.Call, f, ctxmgr: bool = False, generator: bool = False, root=None):
         from .core import Func
 
         fn = call.func
@@ -557,6 +589,14 @@ class Inliner:
                     r = None
                 if isinstance(r, Func) and r.cls is None:
                     callee = r
+        elif isinstance(fn, ast.Attribute) and isinstance(fn.value, ast.Name) and root is not None and fn.value.id in self._local_instances(root, f):
+            # a method (any name) of a private helper class, called on a local that is bound once to an instance of it
+            scope = self._local_instances(root, f)[fn.value.id]
+            owner_mem = prog.lookup(scope, fn.attr)
+            if owner_mem is None or owner_mem[1].func_raw is None or owner_mem[0] is not scope:
+                return None
+            callee = Func(scope.module, f"{scope.name}.{fn.attr}", owner_mem[1].func_raw, scope)
+            recv = fn.value
         elif isinstance(fn, ast.Attribute) and _is_private(fn.attr):
             base = fn.value
             owner_mem = None
@@ -588,6 +628,11 @@ class Inliner:
         if callee.key in self.boundaries:
             return None  # a boundary the rules were written against
         decos = [ast.unparse(d) for d in node.decorator_list]
+        if "classmethod" in decos and isinstance(recv, ast.Name) and recv.id in ("cls", "self"):
+            # cls._helper(...) / self._helper(...) on a classmethod: the first parameter is the class
+            decos = [d for d in decos if d != "classmethod"]
+            if recv.id == "self":
+                recv = ast.Call(ast.Name("type", ast.Load()), [ast.Name("self", ast.Load())], [])
         if ctxmgr:
             if not any(d in ("contextmanager", "contextlib.contextmanager") for d in decos):
                 return None
